@@ -267,6 +267,8 @@ pub fn dispatch(cmd: &str, name: &str, arg: &str) -> Option<String> {
     if name.starts_with("learn.") { return dispatch_schedule(cmd, name, arg); }
     if name.starts_with("validate.") { return dispatch_validate(cmd, name, arg); }
     if name == "feedback.tied" { return dispatch_tied(cmd, name, arg); }
+    if name.starts_with("objective.") { return dispatch_objective(cmd, name, arg); }
+    if name == "network.gradient" { return dispatch_netgrad(cmd, name, arg); }
     if name.starts_with("feedback.") { return dispatch_feedback(cmd, name, arg); }
     if name.starts_with("reshape.") { return dispatch_reshape(cmd, name, arg); }
     if !["conv", "deconv", "pool"].iter().any(|p| name.starts_with(p)) { return None; }
@@ -831,5 +833,163 @@ pub fn dispatch_tied(cmd: &str, name: &str, arg: &str) -> Option<String> {
         let a = [l, n, b, acc, adam, e, tried as u64];
         if let Err(err) = one(a) { return Some(format!("{{\"failed\":true,\"tried\":{},\"input\":{},\"detail\":{:?}}}", tried, fmt(a), err)); }
     }}}}}}
+    Some(format!("{{\"failed\":false,\"tried\":{}}}", tried))
+}
+
+// ------------------------------------------------------------------------------------------------ objectives: gradient = derivative of the loss (C06)
+/// central differences in f64 over the real `loss` (f32): for AE, MSE, binary cross-entropy and KL-divergence the reported gradient must be the
+/// derivative of the reported loss (tolerance 2e-2 relative / 2e-3 absolute; points away from kinks and from the domain boundary)
+pub fn objective_one(which: usize, triple: bool, n: usize, seed: u64) -> Result<(), String> {
+    use crate::objective::Objective::*;
+    let mut rng = Lcg(seed.wrapping_mul(7907).wrapping_add(which as u64 * 13 + n as u64));
+    let obj = match which { 0 => AE, 1 => MSE, 2 => BinaryCrossEntropy, _ => KLDivergence };
+    let f = crate::objective::Function::create(obj, None);
+    let unit = which >= 2;
+    let mk = |v: &Vec<f32>| if triple { Tensor::triple(vec![vec![v.clone()]]) } else { Tensor::single(v.clone()) };
+    let draw = |rng: &mut Lcg| if unit { 0.1 + 0.8 * ((rng.next() % 1000) as f32 / 1000.0) } else { (rng.next() % 4000) as f32 / 1000.0 - 2.0 };
+    let p: Vec<f32> = (0..n).map(|_| draw(&mut rng)).collect();
+    let t: Vec<f32> = (0..n).map(|_| draw(&mut rng)).collect();
+    if which == 0 && p.iter().zip(t.iter()).any(|(a, b)| (a - b).abs() < 0.05) { return Ok(()); }     // AE: stay away from the kink
+    let (_, g) = f.loss(&mk(&p), &mk(&t));
+    let g = g.get_flat();
+    let h = 1e-2f32;
+    for i in 0..n {
+        let mut a = p.clone(); a[i] += h;
+        let mut b = p.clone(); b[i] -= h;
+        let d = (f.loss(&mk(&a), &mk(&t)).0 as f64 - f.loss(&mk(&b), &mk(&t)).0 as f64) / (2.0 * h as f64);
+        if (d - g[i] as f64).abs() > 2e-3 + 2e-2 * d.abs().max(g[i].abs() as f64) {
+            return Err(format!("component {}: gradient {} but the difference quotient of the loss is {:.6} (prediction {:?}, target {:?})", i, g[i], d, p, t));
+        }
+    }
+    Ok(())
+}
+pub fn dispatch_objective(cmd: &str, name: &str, arg: &str) -> Option<String> {
+    if name != "objective.derivative" { return None; }
+    if std::env::var("VERIF_SHOW_PANIC").is_err() { std::panic::set_hook(Box::new(|_| {})); }
+    let fmt = |v: [u64; 4]| format!("{{\"objective\":{},\"triple\":{},\"components\":{},\"seed\":{}}}", v[0], v[1], v[2], v[3]);
+    let one = |v: [u64; 4]| -> Result<(), String> {
+        match std::panic::catch_unwind(move || objective_one(v[0] as usize, v[1] != 0, v[2] as usize, v[3])) { Ok(r) => r, Err(_) => Err("loss() panicked on in-domain inputs".into()) }
+    };
+    if cmd == "run" {
+        let v: Vec<u64> = arg.split(|c: char| !c.is_ascii_digit()).filter(|x| !x.is_empty()).filter_map(|x| x.parse().ok()).collect();
+        if v.len() != 4 { return None; }
+        let a = [v[0], v[1], v[2], v[3]];
+        return Some(match one(a) { Ok(()) => format!("{{\"failed\":false,\"input\":{}}}", fmt(a)), Err(e) => format!("{{\"failed\":true,\"input\":{},\"detail\":{:?}}}", fmt(a), e) });
+    }
+    let mut tried = 0usize;
+    for w in 0..4u64 { for tr in 0..=1u64 { for n in 1..=4u64 { for s in 0..5u64 {
+        tried += 1;
+        let a = [w, tr, n, s];
+        if let Err(e) = one(a) { return Some(format!("{{\"failed\":true,\"tried\":{},\"input\":{},\"detail\":{:?}}}", tried, fmt(a), e)); }
+    }}}}
+    Some(format!("{{\"failed\":false,\"tried\":{}}}", tried))
+}
+
+// ------------------------------------------------------------------------------------------------ whole-network gradients across layer kinds (C01, C08)
+/// all parameters of a network as a flat list of (layer, kind, position) handles; linear activations, no bias on spatial layers
+fn net_params(net: &crate::network::Network) -> Vec<(usize, usize, usize)> {
+    let mut out = Vec::new();
+    for (j, l) in net.layers.iter().enumerate() {
+        match l {
+            crate::network::Layer::Dense(d) => {
+                let n = d.weights.get_flat_any().len();
+                for k in 0..n { out.push((j, 0, k)); }
+                if let Some(b) = &d.bias { for k in 0..b.get_flat().len() { out.push((j, 1, k)); } }
+            }
+            crate::network::Layer::Convolution(c) => { let mut k = 0; for f in &c.kernels { for _ in f.get_flat() { out.push((j, 2, k)); k += 1; } } }
+            crate::network::Layer::Deconvolution(c) => { let mut k = 0; for f in &c.kernels { for _ in f.get_flat() { out.push((j, 2, k)); k += 1; } } }
+            _ => {}
+        }
+    }
+    out
+}
+impl Tensor {
+    /// row-major contents of a 1-D, 2-D or 3-D tensor (test helper)
+    fn get_flat_any(&self) -> Vec<f32> {
+        match &self.data { Data::Double(d) => d.iter().flat_map(|r| r.iter().cloned()).collect(), _ => self.get_flat() }
+    }
+    fn set_flat_any(&mut self, k: usize, v: f32) {
+        match &mut self.data {
+            Data::Single(d) => d[k] = v,
+            Data::Double(d) => { let w = d[0].len(); d[k / w][k % w] = v; }
+            Data::Triple(d) => { let (h, w) = (d[0].len(), d[0][0].len()); d[k / (h * w)][(k / w) % h][k % w] = v; }
+            _ => panic!("unsupported rank"),
+        }
+    }
+}
+fn param_get(net: &crate::network::Network, h: (usize, usize, usize)) -> f32 {
+    match &net.layers[h.0] {
+        crate::network::Layer::Dense(d) => if h.1 == 0 { d.weights.get_flat_any()[h.2] } else { d.bias.as_ref().unwrap().get_flat()[h.2] },
+        crate::network::Layer::Convolution(c) => { let per = c.kernels[0].get_flat().len(); c.kernels[h.2 / per].get_flat()[h.2 % per] }
+        crate::network::Layer::Deconvolution(c) => { let per = c.kernels[0].get_flat().len(); c.kernels[h.2 / per].get_flat()[h.2 % per] }
+        _ => 0.0,
+    }
+}
+fn param_set(net: &mut crate::network::Network, h: (usize, usize, usize), v: f32) {
+    match &mut net.layers[h.0] {
+        crate::network::Layer::Dense(d) => if h.1 == 0 { d.weights.set_flat_any(h.2, v) } else { d.bias.as_mut().unwrap().set_flat_any(h.2, v) },
+        crate::network::Layer::Convolution(c) => { let per = c.kernels[0].get_flat().len(); c.kernels[h.2 / per].set_flat_any(h.2 % per, v) }
+        crate::network::Layer::Deconvolution(c) => { let per = c.kernels[0].get_flat().len(); c.kernels[h.2 / per].set_flat_any(h.2 % per, v) }
+        _ => {}
+    }
+}
+/// architectures mixing layer kinds and flat <-> spatial transitions; L = sum of the outputs, integer weights and inputs, linear activations:
+/// every parameter occurs once, so the step-1 difference quotient is exact
+fn build_arch(arch: usize) -> (crate::network::Network, Tensor) {
+    use crate::network::Network;
+    match arch {
+        0 => { let mut n = Network::new(Shape::Triple(1, 3, 3)); n.convolution(2, (2, 2), (1, 1), (0, 0), (1, 1), Activation::Linear, None); n.dense(2, Activation::Linear, true, None); (n, Tensor::triple(vec![vec![vec![0.0; 3]; 3]])) }
+        1 => { let mut n = Network::new(Shape::Single(4)); n.dense(4, Activation::Linear, false, None); n.convolution(1, (2, 2), (1, 1), (1, 1), (1, 1), Activation::Linear, None); n.dense(1, Activation::Linear, false, None); (n, Tensor::single(vec![0.0; 4])) }
+        2 => { let mut n = Network::new(Shape::Triple(1, 2, 2)); n.deconvolution(1, (2, 2), (2, 2), (0, 0), Activation::Linear, None); n.convolution(2, (3, 2), (1, 2), (0, 1), (1, 1), Activation::Linear, None); n.dense(2, Activation::Linear, true, None); (n, Tensor::triple(vec![vec![vec![0.0; 2]; 2]])) }
+        3 => { let mut n = Network::new(Shape::Triple(2, 2, 3)); n.convolution(1, (1, 2), (1, 1), (0, 0), (1, 1), Activation::Linear, None); n.deconvolution(2, (2, 1), (1, 2), (0, 0), Activation::Linear, None); n.dense(3, Activation::Linear, false, None); (n, Tensor::triple(vec![vec![vec![0.0; 3]; 2]; 2])) }
+        _ => { let mut n = Network::new(Shape::Single(9)); n.dense(9, Activation::Linear, true, None); n.deconvolution(1, (2, 2), (1, 1), (1, 1), Activation::Linear, None); n.dense(2, Activation::Linear, false, None); (n, Tensor::single(vec![0.0; 9])) }
+    }
+}
+pub fn netgrad_one(arch: usize, seed: u64) -> Result<(), String> {
+    let mut rng = Lcg(seed.wrapping_mul(15485863).wrapping_add(arch as u64));
+    let (mut net, mut x) = build_arch(arch);
+    let handles = net_params(&net);
+    for h in &handles { param_set(&mut net, *h, rng.int(-2, 2)); }
+    let nx = x.get_flat().len();
+    for k in 0..nx { x.set_flat_any(k, rng.int(-2, 2)); }
+    let value = |net: &crate::network::Network| -> f32 { net.predict(&x).get_flat().iter().sum() };
+    let (pre, act, maxp, fbs) = net.forward(&x);
+    let nout = act.last().unwrap().get_flat().len();
+    let (wg, bg) = net.backward(Tensor::single(vec![1.0; nout]), &pre, &act, &maxp, fbs);
+    let nl = net.layers.len();
+    let y0 = value(&net);
+    for h in &handles {
+        let old = param_get(&net, *h);
+        param_set(&mut net, *h, old + 1.0);
+        let fd = value(&net) - y0;
+        param_set(&mut net, *h, old);
+        let got = if h.1 == 1 { bg[nl - 1 - h.0].as_ref().map(|b| b.get_flat()[h.2]).unwrap_or(f32::NAN) } else {
+            let g = &wg[nl - 1 - h.0];
+            match &g.data {
+                Data::Quadruple(q) => { let flat: Vec<f32> = q.iter().flat_map(|a| a.iter().flat_map(|b| b.iter().flat_map(|c| c.iter().cloned()))).collect(); flat[h.2] }
+                _ => g.get_flat_any()[h.2],
+            }
+        };
+        if got != fd { return Err(format!("layer {} parameter kind {} position {}: backward gives {} but the exact difference quotient is {}", h.0, h.1, h.2, got, fd)); }
+    }
+    Ok(())
+}
+pub fn dispatch_netgrad(cmd: &str, name: &str, arg: &str) -> Option<String> {
+    if name != "network.gradient" { return None; }
+    if std::env::var("VERIF_SHOW_PANIC").is_err() { std::panic::set_hook(Box::new(|_| {})); }
+    let one = |a: usize, s: u64| -> Result<(), String> {
+        match std::panic::catch_unwind(move || netgrad_one(a, s)) { Ok(r) => r, Err(_) => Err("building / running the network panicked".into()) }
+    };
+    if cmd == "run" {
+        let v: Vec<u64> = arg.split(|c: char| !c.is_ascii_digit()).filter(|x| !x.is_empty()).filter_map(|x| x.parse().ok()).collect();
+        if v.len() != 2 { return None; }
+        return Some(match one(v[0] as usize, v[1]) { Ok(()) => format!("{{\"failed\":false,\"input\":{{\"architecture\":{},\"seed\":{}}}}}", v[0], v[1]),
+            Err(e) => format!("{{\"failed\":true,\"input\":{{\"architecture\":{},\"seed\":{}}},\"detail\":{:?}}}", v[0], v[1], e) });
+    }
+    let mut tried = 0usize;
+    for a in 0..5usize { for s in 0..4u64 {
+        tried += 1;
+        if let Err(e) = one(a, s) { return Some(format!("{{\"failed\":true,\"tried\":{},\"input\":{{\"architecture\":{},\"seed\":{}}},\"detail\":{:?}}}", tried, a, s, e)); }
+    }}
     Some(format!("{{\"failed\":false,\"tried\":{}}}", tried))
 }
